@@ -601,6 +601,16 @@ def run(ck):
                 runs[r["id"]] = r
         jobs = [("c01_%d" % rid, coq_case_file(runs[rid], byid[rid], params)) for (_, rid, _) in part]
         res = ck.coq_eval_par(jobs, timeout=3000)
+        for attempt in range(3):
+            # another build may have replaced a dependency (.vo) between our make and this evaluation
+            stale = [i for i, (rc, out) in enumerate(res) if rc != 0 and "inconsistent assumptions" in out]
+            if not stale:
+                break
+            time.sleep(5 * (attempt + 1))
+            coq_make(["theories/FleetRun.vo"])
+            res2 = ck.coq_eval_par([jobs[i] for i in stale], timeout=3000)
+            for i, r2 in zip(stale, res2):
+                res[i] = r2
         for (_, rid, _), (rc, out) in zip(part, res):
             r, spec = runs[rid], byid[rid]
             m = re.search(r"res\s*=\s*(.*?)\s*:\s", out.replace("\n", " "))
